@@ -73,6 +73,9 @@ func MatchExchangeRate(rates []*ExchangeRate, from, to Code) *ExchangeRate {
 		return nil
 	}
 	for _, rate := range rates {
+		if rate == nil {
+			continue
+		}
 		if rate.From == from && rate.To == to {
 			return rate
 		}
@@ -110,6 +113,9 @@ func (erv *exchangeRateValidation) Validate(val any) error {
 		return nil
 	}
 	for _, r := range erv.rates {
+		if r == nil {
+			continue
+		}
 		if r.From == cur && r.To == erv.to {
 			return nil
 		}
